@@ -233,10 +233,28 @@ Definition ref_up (G:list srev) (cur:list str) (i:ident) : expect :=
       end
   end.
 
+(* A downgrade target.
+   * `label@name` (absolute): the documentation introduces `branchname@rev` as "a specific revision in terms of a specific
+     branch" and the property text says such an identifier never resolves "to a revision outside the named branch".  The
+     lookups (get_revision, upgrade) enforce it ("Revision X is not a member of branch L"); nothing in the documentation
+     gives the downgrade command a different reading, so the reference demands the same here: the label must name a
+     branch and the revision must share lineage with it.  (_parse_downgrade_target does not check this: recorded finding
+     C16-downgrade-label-unchecked.)  `label@base` is documented ("downgraded all the files in networking using
+     networking@base") and needs no revision; for `label@head(s)` the reference only fixes the answer when there is a
+     single head at all.
+   * `label@-N`: relative to the current revision on that branch: exactly one current revision must share lineage with
+     the label (several, or none, is the documented "Relative revision ... didn't produce N migrations" error); when
+     none does, the code additionally looks through dependencies (undocumented: anything of a documented class). *)
 Definition ref_down (G:list srev) (cur:list str) (i:ident) : expect :=
   match i_rel i with
   | None => match i_sym i with
-            | Some s => match r_one G None s with Some o => XOK (i_lbl i) (xopt o) | None => XFail end
+            | Some s => match (match s, i_lbl i with
+                               | RName _, Some _ => r_one G (i_lbl i) s
+                               | _, _ => r_one G None s
+                               end) with
+                        | Some o => XOK (i_lbl i) (xopt o)
+                        | None => XFail
+                        end
             | None => XFree
             end
   | Some z =>
@@ -249,7 +267,15 @@ Definition ref_down (G:list srev) (cur:list str) (i:ident) : expect :=
       | None =>
           if (z <? 0)%Z then
             match i_lbl i with
-            | Some _ => XLoose
+            | Some L =>
+                match r_name G L with
+                | None => XFail
+                | Some b => match filter (r_lineage G b) cur with
+                            | [] => XLoose
+                            | [c] => walk_down_from G (r_one G (Some L) (classify_word c)) (Z.abs_nat z) false (Some L)
+                            | _ => XFail
+                            end
+                end
             | None => match cur with
                       | [] => XFail
                       | c :: _ => walk_down_from G (r_one G (Some c) (classify_word c)) (Z.abs_nat z) false (Some c)
